@@ -453,6 +453,7 @@ func main() {
 	h.sigValues(eip155(big.NewInt(0)), append(r.Bytes(64), 1))
 
 	// 4. signed transactions and their mutations
+	var prevSigned *types.Transaction
 	nSigned := c.Scale(24, 600)
 	fullBits := c.Scale(1, 40)
 	for i := 0; i < nSigned; i++ {
@@ -528,6 +529,13 @@ func main() {
 		h.cacheMatrix(i, s, signed, signedV, i < c.Scale(3, 24))
 		// 4e. RLP and JSON round trips keep hash and sender
 		h.roundTrips(s, signed, signedV, want)
+		// 4f. chain id / V offsets around the signed values
+		h.chainSweep(i, s, signedV, want, i >= 2 && i < c.Scale(4, 24))
+		// 4g. field-patched JSON documents (values taken from the previously signed transaction)
+		if prevSigned != nil && i < c.Scale(8, 200) {
+			h.jsonPatched(signed, prevSigned, s)
+		}
+		prevSigned = signed
 	}
 
 	// 5. boundary R, S, V grids on otherwise random transactions
@@ -1134,6 +1142,220 @@ func (h *harness) cacheCase(s1, s2 sgn, t txv) {
 	}
 }
 
+// ------------------------------------------------------------ chain-id / V offset sweep (sign and width hazards)
+
+// chainSweep: a transaction signed under chain c is queried under EIP155(c+d) and with V shifted by k, for all
+// small d and k.  V - 2c - 8 goes negative on one side of every such line, which is where BitLen / Uint64 /
+// byte() narrowing of a big.Int difference can go wrong.
+func (h *harness) chainSweep(idx int, s sgn, signed txv, want common.Address, withModel bool) {
+	c := h.c
+	base := big.NewInt(0)
+	if s.c != nil {
+		base = s.c
+	}
+	type pt struct{ d, k int64 }
+	var pts []pt
+	span := int64(64)
+	for d := -span; d <= span; d++ {
+		pts = append(pts, pt{d, 0})        // signer chain id moved, V unchanged
+		pts = append(pts, pt{0, 2 * d})    // V moved by 2d' (another chain's V), signer unchanged
+		pts = append(pts, pt{0, 2*d + 1})  // odd V offsets
+		for _, off := range []int64{0, -27, -28, 27, 28, -13, -14, 1, -1} { // diagonals d' - d = const
+			pts = append(pts, pt{d, 2 * (d + off)})
+		}
+	}
+	if c.Thorough() && idx < 4 {
+		for d := -span; d <= span; d++ {
+			for dp := -span; dp <= span; dp++ {
+				pts = append(pts, pt{d, 2 * dp})
+			}
+		}
+	}
+	seen := map[pt]bool{}
+	for _, p := range pts {
+		if seen[p] {
+			continue
+		}
+		seen[p] = true
+		cid := new(big.Int).Add(base, big.NewInt(p.d))
+		v := new(big.Int).Add(signed.v, big.NewInt(p.k))
+		if cid.Sign() < 0 || v.Sign() < 0 {
+			continue
+		}
+		sg := eip155(cid)
+		t := signed.clone()
+		t.v = v
+		tx := t.build()
+		obs, addr, ok := signerSender(sg, tx)
+		c.Eval("chain-sweep/"+kind(s), "")
+		model := withModel && (p.k == 0 || p.d == 0 || p.k == 2*(p.d-27) || p.k == 2*(p.d-28))
+		if model {
+			c.Correspond("Signer.Sender~sender_signer", sg.tok+" "+t.token(), obs, h.m.Ask("sender "+sg.tok+" "+t.token()+" "+ecTable(t, tx, []sgn{sg})))
+		}
+		if !ok {
+			continue
+		}
+		rp := map[string]string{"signer": sg.tok, "rlp": vh.Hex(t.rlp()), "tx": t.token(), "signed_with": s.tok, "original": signed.token(), "chain_offset": fmt.Sprint(p.d), "v_offset": fmt.Sprint(p.k),
+			"expect_not": vh.Hex(want[:]), "observed": obs, "tx.ChainId()": q(tx.ChainId())}
+		if tx.Protected() && tx.ChainId().Cmp(cid) != 0 {
+			c.Violate("chain-binding/attributed-under-foreign-chain-id/"+sg.tok+"/"+t.token(), "EIP155Signer.Sender attributes a replay-protected transaction whose ChainId() is not the signer's chain id", rp)
+		}
+		if addr == want && !(p.d == 0 && p.k == 0) && !(s.c == nil && p.k == 0 && !tx.Protected()) && !(s.c != nil && s.c.Sign() == 0 && p.k == 0) {
+			c.Violate("chain-binding/signer-kept-under-shift/"+sg.tok+"/"+t.token(), "a transaction signed for one chain id / V is attributed to its signer under another chain id or with another V", rp)
+		}
+	}
+}
+
+// ------------------------------------------------------------ field-patched JSON documents
+
+type jmember struct{ name, raw string }
+
+func jdoc(tx *types.Transaction) []jmember {
+	js, _ := tx.MarshalJSON()
+	var m map[string]json.RawMessage
+	json.Unmarshal(js, &m)
+	var d []jmember
+	for _, n := range []string{"nonce", "gasPrice", "gas", "to", "value", "input", "v", "r", "s", "hash"} {
+		if raw, ok := m[n]; ok {
+			d = append(d, jmember{n, string(raw)})
+		}
+	}
+	return d
+}
+
+func jrender(d []jmember) []byte {
+	parts := make([]string, len(d))
+	for i, m := range d {
+		parts[i] = fmt.Sprintf("%q:%s", m.name, m.raw)
+	}
+	return []byte("{" + strings.Join(parts, ",") + "}")
+}
+
+func jtokens(d []jmember) string {
+	last := map[string]string{}
+	for _, m := range d {
+		last[m.name] = m.raw
+	}
+	var toks []string
+	for _, n := range []string{"nonce", "gasPrice", "gas", "to", "value", "input", "v", "r", "s", "hash"} {
+		raw, ok := last[n]
+		switch {
+		case !ok || raw == "null":
+			toks = append(toks, "M")
+		case len(raw) >= 2 && raw[0] == '"':
+			toks = append(toks, "S:0x"+hex.EncodeToString([]byte(raw[1:len(raw)-1])))
+		default:
+			toks = append(toks, "X")
+		}
+	}
+	return strings.Join(toks, " ")
+}
+
+func (h *harness) jsonPatched(a, b *types.Transaction, s sgn) {
+	c, r := h.c, h.c.Rng
+	da, db := jdoc(a), jdoc(b)
+	other := map[string]string{}
+	for _, m := range db {
+		other[m.name] = m.raw
+	}
+	if _, ok := other["to"]; !ok || other["to"] == "null" {
+		other["to"] = `"0x00000000000000000000000000000000000000aa"`
+	}
+	names := []string{"hash", "nonce", "gasPrice", "gas", "to", "value", "input", "v", "r", "s"}
+	check := func(class string, d []jmember) {
+		doc := jrender(d)
+		tx2 := new(types.Transaction)
+		var err error
+		if p, pv := vh.CatchPanic(func() { err = tx2.UnmarshalJSON(doc) }); p {
+			c.Violate("json-unmarshal-panic/"+string(doc), "Transaction.UnmarshalJSON panics", map[string]string{"json": string(doc), "panic": fmt.Sprint(pv)})
+			return
+		}
+		c.Eval("json-patched/"+class, "")
+		obs := "err"
+		if err == nil {
+			hh := tx2.Hash()
+			obs = "ok " + fromTx(tx2).token() + " " + vh.Hex(hh[:])
+			c.Count("json-patched:accepted")
+		} else {
+			c.Count("json-patched:rejected")
+		}
+		c.Correspond("Transaction.UnmarshalJSON~tx_of_json,tx_hash", string(doc), obs, h.m.Ask("json_tx "+jtokens(d)))
+		if err != nil {
+			return
+		}
+		// direct oracle: the hash is that of the transaction's own RLP encoding, and survives JSON -> RLP;
+		// the sender is the one a fresh RLP copy has
+		enc, _ := rlp.EncodeToBytes(tx2)
+		tx3 := new(types.Transaction)
+		if derr := rlp.DecodeBytes(enc, tx3); derr != nil {
+			c.Violate("json-then-rlp-fails/"+string(doc), "a transaction accepted from JSON does not survive RLP re-encoding", map[string]string{"json": string(doc), "err": derr.Error()})
+			return
+		}
+		rp := map[string]string{"json": string(doc), "patched": class, "hash_reported": tx2.Hash().Hex(), "hash_of_rlp": crypto.Keccak256Hash(enc).Hex(), "rlp": vh.Hex(enc)}
+		if tx2.Hash() != crypto.Keccak256Hash(enc) || tx3.Hash() != tx2.Hash() {
+			c.Violate("json-hash-not-content-derived/"+class+"/"+string(doc), "Hash() of a transaction decoded from JSON is not the hash of its RLP encoding (it does not survive JSON -> RLP re-encoding)", rp)
+		}
+		var sg types.Signer = types.HomesteadSigner{}
+		if tx2.Protected() {
+			sg = types.NewEIP155Signer(tx2.ChainId())
+		}
+		f2, e2 := types.Sender(sg, tx2)
+		f3, e3 := types.Sender(sg, tx3)
+		if (e2 == nil) != (e3 == nil) || f2 != f3 {
+			c.Violate("json-sender-differs-from-rlp-copy/"+class+"/"+string(doc), "the sender of a transaction decoded from JSON differs from that of its RLP copy", rp)
+		}
+	}
+	check("unpatched", da)
+	for _, n := range names {
+		idx := -1
+		for i, m := range da {
+			if m.name == n {
+				idx = i
+			}
+		}
+		patch := func(class, raw string) {
+			d := append([]jmember{}, da...)
+			if idx >= 0 {
+				d[idx].raw = raw
+			} else {
+				d = append(d, jmember{n, raw})
+			}
+			check(n+"/"+class, d)
+		}
+		patch("other-tx-value", other[n])
+		patch("null", "null")
+		patch("number", "5")
+		patch("empty-string", `""`)
+		switch n {
+		case "hash":
+			patch("wrong", `"`+vh.Hex(r.Bytes(32))+`"`)
+			patch("short", `"0x1234"`)
+			patch("no-prefix", `"`+hex.EncodeToString(r.Bytes(32))+`"`)
+		case "to":
+			patch("wrong", `"`+vh.Hex(r.Bytes(20))+`"`)
+			patch("short", `"0x1234"`)
+			patch("upper-prefix", `"0X`+hex.EncodeToString(r.Bytes(20))+`"`)
+		case "input":
+			patch("wrong", `"0x00"`)
+			patch("odd", `"0x123"`)
+			patch("no-prefix", `"1234"`)
+		default:
+			patch("zero", `"0x0"`)
+			patch("one", `"0x1"`)
+			patch("leading-zero", `"0x01"`)
+			patch("no-prefix", `"17"`)
+			patch("65-digits", `"0x1`+strings.Repeat("0", 64)+`"`)
+			patch("17-digits", `"0x1`+strings.Repeat("0", 16)+`"`)
+		}
+		if idx >= 0 {
+			d := append(append([]jmember{}, da[:idx]...), da[idx+1:]...)
+			check(n+"/dropped", d)
+			check(n+"/duplicated-other-last", append(append([]jmember{}, da...), jmember{n, other[n]}))
+			check(n+"/duplicated-other-first", append([]jmember{{n, other[n]}}, da...))
+		}
+	}
+}
+
 // ------------------------------------------------------------ the `from` cache across signers
 
 // cacheVariants: the signed transaction and the variants on which different signers disagree
@@ -1400,6 +1622,19 @@ func replay(h *harness, file string) {
 	if err := json.Unmarshal(raw, &rp); err != nil {
 		h.c.Fatal("replay: %v", err)
 	}
+	if doc := rp.Replay["json"]; doc != "" && rp.Replay["patched"] != "" {
+		tx2 := new(types.Transaction)
+		if err := tx2.UnmarshalJSON([]byte(doc)); err != nil {
+			h.c.Note("replay: document rejected: %v", err)
+			return
+		}
+		enc, _ := rlp.EncodeToBytes(tx2)
+		h.c.Eval("replay/json", "")
+		if tx2.Hash() != crypto.Keccak256Hash(enc) {
+			h.c.Violate("json-hash-not-content-derived/"+rp.Replay["patched"]+"/"+doc, "Hash() of a transaction decoded from JSON is not the hash of its RLP encoding", map[string]string{"json": doc, "hash_reported": tx2.Hash().Hex(), "hash_of_rlp": crypto.Keccak256Hash(enc).Hex()})
+		}
+		return
+	}
 	enc := rp.Replay["rlp"]
 	if enc == "" {
 		enc = rp.Replay["mutated_rlp"]
@@ -1453,6 +1688,9 @@ func replay(h *harness, file string) {
 	if orig := rp.Replay["original"]; orig != "" {
 		h.c.Note("replaying a mutation of %s", orig)
 	}
-	obs, _, _ := h.senderCase("replay", s, t)
+	obs, raddr, rok := h.senderCase("replay", s, t)
 	h.c.Note("replay: %s %s -> %s", s.tok, t.token(), obs)
+	if en := rp.Replay["expect_not"]; en != "" && rok && vh.Hex(raddr[:]) == en {
+		h.c.Violate("chain-binding/signer-kept-under-shift/"+s.tok+"/"+t.token(), "a transaction signed for one chain id / V is attributed to its signer under another chain id or with another V", rp.Replay)
+	}
 }
